@@ -12,6 +12,8 @@ pub enum Tail {
     Fn,
     /// block ends by yielding the tuple of these (loop-carried / branch-assigned) variables
     State(Vec<String>),
+    /// block inside a region that may `return` early: yields `Option <function result>`
+    MayReturn,
 }
 
 fn tok(t: &impl ToTokens) -> String {
@@ -91,6 +93,16 @@ impl<'a> Ctx<'a> {
                 out.push(format!("pure {f}"));
             },
             Tail::State(vars) => out.push(format!("pure {}", tuple_of(vars))),
+            Tail::MayReturn => out.push("pure none"),
+        }
+    }
+
+    fn emit_return(&mut self, v: Option<String>, out: &mut Out) {
+        let f = self.finalize(v);
+        if self.may_return > 0 {
+            out.push(format!("pure (some {f})"));
+        } else {
+            out.push(format!("pure {f}"));
         }
     }
 
@@ -202,13 +214,82 @@ impl<'a> Ctx<'a> {
                         let rt = self.ret_ty.clone();
                         self.expr(x, Some(&rt), out).0
                     });
-                    let f = self.finalize(v);
-                    out.push(format!("pure {f}"));
+                    self.emit_return(v, out);
+                    return;
+                }
+                // a nested block / if that may `return` from the function
+                if matches!(e, syn::Expr::If(_) | syn::Expr::Block(_) | syn::Expr::Unsafe(_)) && contains_return(e) {
+                    if self.loop_depth > 0 {
+                        self.err(e.span(), "return inside a loop is not supported");
+                    }
+                    let inner: Vec<syn::Stmt> = vec![syn::Stmt::Expr(e.clone(), None)];
+                    self.skip_returning.set(true);
+                    let escaping = self.assigned_outer(&inner);
+                    self.skip_returning.set(false);
+                    if !escaping.is_empty() {
+                        self.err(e.span(), "a block that may return must not assign outer variables");
+                    }
+                    let t = self.fresh();
+                    out.push(format!("let {t} ← mayReturn do"));
+                    self.may_return += 1;
+                    out.ind += 2;
+                    self.may_return_expr(e, out, facts);
+                    out.ind -= 2;
+                    self.may_return -= 1;
+                    out.push(format!("match {t} with"));
+                    if self.may_return > 0 {
+                        out.push("| some r => pure (some r)");
+                    } else {
+                        out.push("| some r => pure r");
+                    }
+                    out.push("| none => do");
+                    out.ind += 1;
+                    self.scopes.push(vec![]);
+                    self.stmts(rest, out, tail, facts);
+                    self.scopes.pop();
+                    out.ind -= 1;
                     return;
                 }
                 self.expr_stmt(e, out, facts);
                 self.stmts(rest, out, tail, facts);
             },
+        }
+    }
+
+    /// `if` / block statement inside a may-return region: every path yields `Option <result>`
+    fn may_return_expr(&mut self, e: &syn::Expr, out: &mut Out, facts: &mut Vec<(CfgPred, bool)>) {
+        match e {
+            syn::Expr::If(i) => {
+                let c = self.cond_expr(&i.cond, out);
+                out.push(format!("if {c} then do"));
+                out.ind += 1;
+                self.block(&i.then_branch.stmts, out, &Tail::MayReturn);
+                out.ind -= 1;
+                out.push("else do");
+                out.ind += 1;
+                match &i.else_branch {
+                    Some((_, el)) => {
+                        self.scopes.push(vec![]);
+                        self.may_return_expr(el, out, facts);
+                        self.scopes.pop();
+                    },
+                    None => out.push("pure none"),
+                }
+                out.ind -= 1;
+            },
+            syn::Expr::Block(b) => {
+                self.scopes.push(vec![]);
+                let refs: Vec<&syn::Stmt> = b.block.stmts.iter().collect();
+                self.stmts(&refs, out, &Tail::MayReturn, facts);
+                self.scopes.pop();
+            },
+            syn::Expr::Unsafe(b) => {
+                self.scopes.push(vec![]);
+                let refs: Vec<&syn::Stmt> = b.block.stmts.iter().collect();
+                self.stmts(&refs, out, &Tail::MayReturn, facts);
+                self.scopes.pop();
+            },
+            _ => self.err(e.span(), "unsupported statement in a region that may return"),
         }
     }
 
@@ -254,8 +335,7 @@ impl<'a> Ctx<'a> {
                     let rt = self.ret_ty.clone();
                     self.expr(x, Some(&rt), out).0
                 });
-                let f = self.finalize(v);
-                out.push(format!("pure {f}"));
+                self.emit_return(v, out);
             },
             _ => {
                 let rt = self.ret_ty.clone();
@@ -659,6 +739,21 @@ impl<'a> Ctx<'a> {
             _ => self.err(lhs.span(), format!("unsupported assignment target `{}`", tok(lhs))),
         }
     }
+}
+
+/// does the expression contain a `return` (not counting closures / nested items)?
+pub fn contains_return(e: &syn::Expr) -> bool {
+    struct V(bool);
+    impl<'ast> syn::visit::Visit<'ast> for V {
+        fn visit_expr_return(&mut self, _: &'ast syn::ExprReturn) {
+            self.0 = true;
+        }
+        fn visit_expr_closure(&mut self, _: &'ast syn::ExprClosure) {}
+        fn visit_item(&mut self, _: &'ast syn::Item) {}
+    }
+    let mut v = V(false);
+    syn::visit::Visit::visit_expr(&mut v, e);
+    v.0
 }
 
 fn ends_in_return(b: &syn::Block) -> bool {
